@@ -17,6 +17,9 @@ HISTORY = {  # changes that an earlier version of the checks missed, and what wa
     "agent-C19": "missed at first by C19 (caught by C10): derived circuits were compiled before the load; the L event now compiles them lazily after load_state_dict",
     "revert-13-4866aad": "C02 missed it at first (C07 caught it): added complex-parameter pipelines with conjugation to C02",
     "agent-C03": "C02 missed it at first (C03 caught it): added mixed input kinds per variable to C02",
+    "agent3-C08": "missed at first: the pair pool (<= 4 layers) contained no smooth+decomposable circuit that is not structured-decomposable (needs >= 6 layers); all 15 such structures with <= 6 layers and two 8-layer ones are now paired with the whole pool",
+    "agent3-C18": "missed at first: derived circuits were only compiled as chains; added the event 'dag-first' (c0*(c0*c1) compiled in one call, nothing compiled before) and a value check of derived circuits against the operands compiled in the same context",
+    "agent3-C19": "missed at first by C19: every tensor of the explored models was learnable; the histories are now also explored on partially frozen models (non-learnable tensors with a random initialiser)",
     "agent2-C02": "C02 missed it at first (C14 caught it): added integrate of the product of two DIFFERENT circuits (a square is symmetric and hides the transposition)",
     "agent2-C03": "C03 and C02 missed it at first (C14 caught it): same strengthening as agent2-C02 (mode pair-int in C03)",
     "agent2-C06": "C06 missed it at first (C17 caught it): observations of continuous variables now mix Python ints and floats",
